@@ -1,11 +1,16 @@
 #!/bin/sh
-# tools/try_seed.sh PATCH PROP [PROP...] -- apply a seeded change to /repo, run the quick checks, undo it
+# tools/try_seed.sh PATCH PROP [PROP...] -- run the quick checks against a seeded change WITHOUT touching /repo: the patch is
+# applied in a scratch worktree of /repo's HEAD (kept under /var/tmp/verif-seedtry, removed with `tools/try_seed.sh --clean`)
+# and the checks are pointed at it through VERIF_REPO
+WT=/var/tmp/verif-seedtry
+if [ "$1" = "--clean" ]; then git -C /repo worktree remove --force $WT 2>/dev/null; git -C /repo worktree prune; exit 0; fi
 P="$1"; shift
 cd /verif
-git -C /repo apply "$P" || { echo "patch does not apply: $P"; exit 3; }
+if [ ! -d $WT ]; then tools/mkworktree.sh $WT >/dev/null 2>&1 || exit 3; fi
+git -C $WT checkout -q -- . && git -C $WT checkout -q --detach "$(git -C /repo rev-parse HEAD)" || exit 3
+git -C $WT apply "$P" || { echo "patch does not apply: $P"; exit 3; }
 for c in "$@"; do
-  timeout 1500 bin/check "$c" --tier quick > /var/tmp/try_$c.log 2>&1; rc=$?
+  VERIF_REPO=$WT timeout 1800 bin/check "$c" --tier quick > /var/tmp/try_$c.log 2>&1; rc=$?
   echo "== $c rc=$rc: $(grep -c '^VIOLATION' /var/tmp/try_$c.log) violation keys"; grep "key=" /var/tmp/try_$c.log | cut -c1-220 | head -4
 done
-git -C /repo checkout -- .
-git -C /repo status --short | grep -v '^??'
+git -C $WT checkout -q -- .
